@@ -24,11 +24,18 @@ pub struct Case {
 
 pub const ACTIONS: &[&str] = &["add", "remove", "replace", "override", "default", "bogus"];
 
-/// the reference model
+/// the reference model (names compared after Unicode lower-casing)
 pub fn reference(headers: &[(String, String)], filters: &[(String, String, String)]) -> Vec<(String, String)> {
+    reference_with(headers, filters, |s| s.to_lowercase())
+}
+
+/// the reference model under a given notion of "same name ignoring case". The statement says case-insensitive;
+/// for names outside ASCII that leaves two readings (Unicode or ASCII-only folding). Either is accepted — but it
+/// must be ONE reading for all five operations of a sequence.
+pub fn reference_with(headers: &[(String, String)], filters: &[(String, String, String)], fold: fn(&str) -> String) -> Vec<(String, String)> {
     let mut list: Vec<(String, String)> = headers.to_vec();
     for (action, name, value) in filters {
-        let same = |n: &str| n.to_lowercase() == name.to_lowercase();
+        let same = |n: &str| fold(n) == fold(name);
         match action.as_str() {
             "add" => list.push((name.clone(), value.clone())),
             "remove" => list.retain(|(n, _)| !same(n)),
@@ -113,7 +120,21 @@ pub fn prepare(filters: &[(String, String, String)]) -> Prepared {
 }
 
 pub fn check(case: &Case, prepared: &mut Prepared) -> Result<bool, String> {
-    let expected = reference(&case.headers, &case.filters);
+    let mut expected = reference(&case.headers, &case.filters);
+    let all_ascii = case.headers.iter().all(|(n, _)| n.is_ascii()) && case.filters.iter().all(|(_, n, _)| n.is_ascii());
+    if !all_ascii {
+        // names outside ASCII: the other consistent reading is accepted as well
+        let ascii_reading = reference_with(&case.headers, &case.filters, |s| s.to_ascii_lowercase());
+        if ascii_reading != expected {
+            let got = match &prepared.direct {
+                None => case.headers.clone(),
+                Some(f) => from_headers(f.filter(to_headers(&case.headers), None)),
+            };
+            if got == ascii_reading {
+                expected = ascii_reading;
+            }
+        }
+    }
     let direct = match &prepared.direct {
         None => case.headers.clone(),
         Some(f) => from_headers(f.filter(to_headers(&case.headers), None)),
@@ -261,7 +282,7 @@ pub fn run(ctx: &Ctx, _args: &Args) -> i32 {
         // confuse them) and the empty name
         let names = [
             "A", "a", "B", "b", "C", "AB", "Ab", "Content-Type", "content-type", "CONTENT-TYPE", "X-Foo", "x-foo", "X-Foo-Bar", "Set-Cookie",
-            "set-cookie2", "Accept", "ACCEPT-RANGES", "",
+            "set-cookie2", "Accept", "ACCEPT-RANGES", "", "x-cl\u{e9}", "X-CL\u{c9}", "X-GR\u{d6}\u{df}E", "x-gr\u{f6}\u{df}e",
         ];
         let values = ["", "1", "2", "x", "text/html", "a=b; c", "\u{e9}"];
         for _ in 0..(random_cases / jobs as u64) {
@@ -291,7 +312,7 @@ pub fn run(ctx: &Ctx, _args: &Args) -> i32 {
     finish(
         ctx,
         report,
-        "enumerated: all header lists (len<=3, names {A,a,B}, values {'',1,2}) x all filter sequences of length k over {add,remove,replace,override,default,bogus} x {A,a,b,C} x {x,''}; random longer lists/sequences with mixed-case real header names, prefix-related names (Accept / Accept-Ranges, A / AB) and the empty name; each evaluation runs FilterHeaderAction::filter and Action::filter_headers at 3 response codes against the reference fold. non-trivial = the filter sequence changes the header list (enumerated cases distinct by construction; random ones de-duplicated by hash)",
+        "enumerated: all header lists (len<=3, names {A,a,B}, values {'',1,2}) x all filter sequences of length k over {add,remove,replace,override,default,bogus} x {A,a,b,C} x {x,''}; random longer lists/sequences with mixed-case real header names, prefix-related names (Accept / Accept-Ranges, A / AB), the empty name and names with non-ASCII cased letters (either consistent reading of 'case-insensitive' is accepted there); each evaluation runs FilterHeaderAction::filter and Action::filter_headers at 3 response codes against the reference fold. non-trivial = the filter sequence changes the header list (enumerated cases distinct by construction; random ones de-duplicated by hash)",
         &["rustc/std", "serde_json (to build the Action)", "str::to_lowercase as the meaning of case-insensitive"],
         started,
         1000,
